@@ -682,6 +682,17 @@ def empty_like(a, dtype=None, **k):
     return empty(_np.shape(_d(a)), dtype if dtype is not None else float)
 
 
+def outer(a, b, **k):
+    if isinstance(a, SA) or isinstance(b, SA):
+        ad, bd = _np.asarray(_d(a), dtype=object).ravel(), _np.asarray(_d(b), dtype=object).ravel()
+        out = _np.empty((len(ad), len(bd)), dtype=object)
+        for i in range(len(ad)):
+            for j in range(len(bd)):
+                out[i, j] = Sc.of(ad[i]) * bd[j]
+        return SA(out)
+    return _np.outer(a, b)
+
+
 def absolute(x, **k):
     if isinstance(x, SA):
         return _map(lambda v: abs(Sc.of(v)), x)
@@ -1044,6 +1055,7 @@ SHIMS = dict(
     diff=diff,
     cumsum=cumsum,
     dot=dot,
+    outer=outer,
     matmul=matmul,
     isfinite=isfinite,
     void=void,
